@@ -856,6 +856,22 @@ Proof.
   - now rewrite strip_stream_tokens, strip_undeclare, strip_idem.
 Qed.
 
+(** Inside a container: MarshalXML is not told the container's default
+    namespace, but an element that has a namespace of its own does not need it. *)
+Lemma undeclare_root d n a cs :
+  str_empty (fst n) = false -> undeclare d (Elem n a cs) = undeclare "" (Elem n a cs).
+Proof. intros H. cbn [undeclare]. rewrite H. reflexivity. Qed.
+
+Lemma reread_in_top ns n a cs :
+  str_empty (fst n) = false ->
+  reread_in ns (tokens (undeclare "" (strip (Elem n a cs)))) = tokens (undeclare "" (strip (Elem n a cs))).
+Proof.
+  intros Hn. unfold reread_in.
+  pose proof (reread_undeclare (strip (Elem n a cs)) [ns] [] (nodecl_strip (Elem n a cs))) as H.
+  cbn [hd] in H. rewrite !app_nil_r in H.
+  cbn [strip] in *. rewrite (undeclare_root ns n _ _ Hn) in H. exact H.
+Qed.
+
 (** * The token decoder on the stream of a captured value *)
 
 Lemma declare_nodecl a e :
@@ -1261,20 +1277,22 @@ Proof. destruct x; cbn; try discriminate. intros H. apply otokens_eqb_eq in H. n
 (** For every well-formed element outside the known finding: an
     implementation that behaves as the model says meets the property. *)
 Lemma doc_agree_implies_spec_ok ts o :
-  input_wf ts = true -> doc_kf ts = false ->
+  input_wf ts = true -> doc_kf ts = false -> doc_kf_in ts = false ->
   doc_agrees ts o = true -> doc_spec_ok ts o = true.
 Proof.
-  intros Hwf Hkf H. destruct (input_wf_tokens ts Hwf) as [n [a [cs [-> Hp]]]].
+  intros Hwf Hkf Hkin H. destruct (input_wf_tokens ts Hwf) as [n [a [cs [-> Hp]]]].
+  cbn [tokens doc_kf_in] in Hkin.
   unfold doc_kf in Hkf. rewrite Hp in Hkf. set (t := Elem n a cs) in *.
   unfold doc_agrees in H. cbn [tokens t] in H.
   pose proof (capture_replay n a cs []) as Hc. unfold forest_tokens in Hc. rewrite Hc in H. fold t in H.
   set (v := raw_of (strip t)) in *.
   assert (Hs : stream v = (map Some (tokens (strip t)), false)) by apply stream_raw_of.
   assert (Hdr : drain v = (map Some (tokens (strip t)), DEof)) by (rewrite drain_stream, Hs; reflexivity).
-  unfold v in H at 4 5 6. rewrite (decoded_in_place_id t Hkf) in H. fold v in H.
+  unfold v in H at 4 5 6 7. rewrite (decoded_in_place_id t Hkf) in H. fold v in H.
   rewrite Hdr in H. cbn [fst snd] in H.
   repeat (apply Bool.andb_true_iff in H as [H ?]).
   match goal with X : marshal_agrees _ _ = true |- _ => rename X into Hmar end.
+  match goal with X : marshal_in_agrees _ _ _ = true |- _ => rename X into Hmin end.
   match goal with X : outcome_eqb (snd _) _ = true |- _ => rename X into Ho2 end.
   match goal with X : list_eqb otoken_eqb (fst _) _ = true |- _ => rename X into Hl2 end.
   match goal with X : res_eqb _ _ _ = true |- _ => rename X into Hdec end.
@@ -1284,7 +1302,14 @@ Proof.
   rewrite (retrans_captured t Hkf) in Hdec. apply res_otokens_eqb_ok in Hdec.
   assert (Hsame : same_stream (tokens (strip t)) (tokens t) = true).
   { unfold same_stream. rewrite !parse_forest_tree. apply same_tree_strip. }
-  unfold doc_spec_ok. rewrite H, Hoc, (He eq_refl), Hd, somes_map_Some, Hl2, Ho2, Hdec, somes_map_Some, Hsame.
+  unfold doc_spec_ok. apply Bool.andb_true_iff. split.
+  2:{ unfold doc_spec_in. unfold marshal_in_agrees, marshal in Hmin. subst v.
+      rewrite marshal_raw_of in Hmin. unfold t in Hmin. rewrite (reread_in_top dav_ns n a cs Hkin) in Hmin.
+      fold t in Hmin.
+      destruct (do_mar_in o) as [m| |]; try discriminate.
+      apply (same_stream_trans_l _ _ _ Hmin).
+      unfold same_stream. rewrite !parse_forest_tree. apply same_tree_undeclare. }
+  unfold doc_spec_main. rewrite H, Hoc, (He eq_refl), Hd, somes_map_Some, Hl2, Ho2, Hdec, somes_map_Some, Hsame.
   cbn [outcome_eqb andb].
   assert (Hwn : well_nested (tokens (strip t)) = true).
   { pose proof (stream_well_nested v (no_end_tok_raw_of _)) as W. rewrite Hs in W. cbn [fst snd] in W.
@@ -1409,4 +1434,30 @@ Proof.
   exists (tokens (undeclare "" (strip t))). split; [apply marshal_raw_of|].
   exists (undeclare "" (strip t)). rewrite reread_top, parse_forest_tree. split; [reflexivity|].
   apply same_tree_undeclare.
+Qed.
+
+(** Written inside a container whose namespace the encoder has declared as the
+    default, an element that has a namespace of its own still comes back as the
+    same tree... *)
+Lemma remarshal_embedded ns n a cs :
+  str_empty (fst n) = false ->
+  exists l, marshal (raw_of (strip (Elem n a cs))) = Ok l /\
+            exists u, parse_forest (reread_in ns l) = Some [u] /\ same_tree u (Elem n a cs) = true.
+Proof.
+  intros Hn. exists (tokens (undeclare "" (strip (Elem n a cs)))). split; [apply marshal_raw_of|].
+  exists (undeclare "" (strip (Elem n a cs))). rewrite (reread_in_top ns n a cs Hn), parse_forest_tree.
+  split; [reflexivity|]. apply same_tree_undeclare.
+Qed.
+
+(** ...an element in no namespace does not (known finding
+    C15/embedded-no-namespace): it is read back in the container's namespace. *)
+Lemma embedded_no_namespace_refuted :
+  exists n a cs l,
+    str_empty (fst n) = true /\
+    marshal (raw_of (strip (Elem n a cs))) = Ok l /\
+    parse_forest (reread_in dav_ns l) = Some [Elem (dav_ns, snd n) a cs] /\
+    same_tree (Elem (dav_ns, snd n) a cs) (Elem n a cs) = false.
+Proof.
+  exists ("", "x"), [], [], [TStart ("", "x") []; TEnd ("", "x")].
+  repeat split; vm_compute; reflexivity.
 Qed.
